@@ -499,7 +499,7 @@ class Exec(Interp):
     def dict_keyseq(self, st, d: SV) -> SV:
         """Ghost enumeration of a dict's keys: a duplicate-free list containing exactly the keys
         (order unspecified: a sound over-approximation of insertion order)."""
-        key = ("keyseq", d.term.get_id(), id(st.heap.get(self.dnames(d.kind)[0])))
+        key = ("keyseq", d.term.get_id(), self.harr(st, self.dnames(d.kind)[0]).get_id())
         cache = st.ghost.setdefault("keyseq", {})
         if key in cache:
             return cache[key]
@@ -754,6 +754,8 @@ class Exec(Interp):
             self.assume(st, self.spec_eval(st, e, ctx, env, fi.module, fi))
         if not st.feasible():
             raise PathCut()
+        if raises is None and fi.qualname == "Study.get_trials":
+            st.ghost["get_trials_result"] = res
         if raises is not None:
             cls = self.exc_class(raises, fi)
             raise PyRaise(PyExc(cls, where="contract %s/%s called at line %s" % (fi.qualname, chosen.name, line)))
